@@ -329,6 +329,10 @@ func corpusPgJSON() []*modSpec {
 		"type Shapes []Shape\ntype ShapeMap map[string]Shape\ntype Box struct {\n\tS Shape\n\tAll Shapes\n\tNamed ShapeMap\n\tLabel string\n}\n\n" +
 		"type IdDrawing int64\n\ntype Drawing struct {\n\tId IdDrawing\n\tMain Box\n\tList Shapes\n\tBy ShapeMap\n\tOne Shape\n}\n"
 	return []*modSpec{
+		mk("json-column-of-an-imported-plain-struct", "package models\n\nimport \"example.com/org/models/shared\"\n\ntype IdUser int64\n\ntype User struct {\n\tId IdUser\n\tName string\n\tHome shared.Address\n}\n",
+			modFile{"shared/shared.go", "package shared\n\ntype Address struct {\n\tStreet string\n\tCity string `json:\"city\"`\n\tTags []string\n\tGeo Point\n}\n\ntype Point struct{ Lat, Lng float64 }\n"}),
+		mk("json-column-of-an-imported-struct", "package models\n\nimport \"example.com/org/models/shared\"\n\ntype IdUser int64\n\ntype User struct {\n\tId IdUser\n\tName string\n\tHome shared.Address\n\tLast shared.Event\n}\n",
+			modFile{"shared/shared.go", "package shared\n\ntype Address struct {\n\tStreet string\n\tCity string `json:\"city\"`\n\tTags []string\n}\n\ntype Event interface{ isEvent() }\n\ntype Login struct{ At string }\n\ntype Logout struct{ Reason string }\n\nfunc (Login) isEvent() {}\nfunc (Logout) isEvent() {}\n"}),
 		mk("json-shapes", shapes),
 		mk("json-unions", unions),
 		mk("json-shared-shapes", "package models\n\ntype Meta map[string]int\n\ntype Address struct {\n\tStreet string\n\tTags []string\n}\n\ntype Article struct {\n\tId int64\n\tMeta Meta\n\tBilling Address\n\tShipping Address\n}\n\ntype Comment struct {\n\tId int64\n\tMeta Meta\n\tFrom Address\n}\n"),
@@ -409,12 +413,15 @@ func runC04(e *env) {
 		if o.Gen["sql"].Outcome == "crash" {
 			e.m.fail(oracleFailure{What: "the SQL generator dies: " + o.Gen["sql"].Msg, Input: spec, Class: spec.Class})
 		}
+		// without test binary (it needs the Go generators to compile for the module) the script is still compared with
+		// the model, without documents
+		var records []binRecord
 		if r == nil {
-			continue
-		}
-		if r.BuildErr != "" {
+			e.m.count("no_test_binary")
+		} else if r.BuildErr != "" {
 			e.m.count("test_binary_does_not_build")
-			continue
+		} else {
+			records = r.Records
 		}
 		ps := readValidators(o.Gen["sql"].Text)
 		if len(ps.Unparsed) > 0 {
@@ -429,7 +436,7 @@ func runC04(e *env) {
 		}
 		var docs []string
 		ndocs := 0
-		for _, rec := range r.Records {
+		for _, rec := range records {
 			if rec.Kind != "roundtrip" || rec.JSON == "" {
 				continue
 			}
